@@ -302,6 +302,38 @@ def _judge(ctx, cases, tag):
     return evs, clss, stats
 
 
+def _stage_scenario(ctx, rnd):
+    """Extension beyond the listed property: end-to-end behaviours of spec/Bits.tla (mine / send / store / relay) replayed through
+    the real library; the state projected from the real bytes must equal TLC's after every step, and every transaction send_tx
+    signed along the way is judged by Trace_Send."""
+    from .. import scenario
+
+    r = vlib.tlc_ok("Bits", "MC_Bits_q.cfg" if ctx.tier == "quick" else "MC_Bits.cfg", workers=16, timeout=3000, coverage=True)
+    ctx.stage_a("Bits / " + ("MC_Bits_q.cfg" if ctx.tier == "quick" else "MC_Bits.cfg"), r,
+                constants="3 keys, reward 100000, fee 1000, dust 1000, <= 2 (3) blocks and sends", coverage_required=("Mine", "Send", "Store", "Relay"))
+    behaviours, _ = vlib.simulate("Bits", "MC_Bits.cfg", num=30 if ctx.tier == "quick" else 600, depth=12, seed=ctx.seed + 5)
+    consts = {"Keys": [1, 2, 3], "Reward": 100000, "Fee": 1000}
+    sends, steps, nb = [], 0, 0
+    for beh in behaviours:
+        n, bad, evs = scenario.replay_behaviour(beh, consts, rnd)
+        steps += n
+        nb += 1
+        ctx.nontrivial(("scn", tuple(a + str(p) for a, p, _ in beh[1:])))
+        if bad:
+            ctx.violation("scenario-state-differs", {"stage": "B", "behaviour": [f"{a}{tuple(p)}" for a, p, _ in beh[1:]], **bad})
+        sends += evs
+    sends = sends[: (12 if ctx.tier == "quick" else 300)]
+    for i, e in enumerate(sends):
+        e["id"] = i
+    if sends:
+        verdicts, stats = vlib.validate_events("Trace_Send", sends, native=True, chunk=3, jobs=16, tag="c16s", timeout=3000)
+        for e in sends:
+            if verdicts[e["id"]] != "ok":
+                ctx.violation("scenario-" + verdicts[e["id"]], {"stage": "C", "raw": bytes(e["raw"]).hex()[:300], "num": e["num"], "den": e["den"]})
+        ctx.stage_c("Trace_Send (scenario transactions)", len(sends), stats)
+    ctx.stage_b("Bits.tla -simulate -> real library", nb, steps=steps)
+
+
 def run(ctx):
     ctx.rule = ("stage B: bounded build cases (amount lists x fractions x fees) through send_tx; stage C: sender kind x recipient kind x "
                 "flag x version x locktime x output indices x float-hostile amounts, signed and unsigned; all distinct cases are non-trivial "
@@ -319,6 +351,7 @@ def run(ctx):
     evs, clss, stats = _judge(ctx, cases, "c16")
     ctx.stage_c("Trace_Send (secp256k1)", len(evs), stats)
     ctx.sample({"stage": "C", "case": clss[0]})
+    _stage_scenario(ctx, random.Random(ctx.seed * 31 + 77))
 
 
 KEYF = ("sender_kind", "recipient_kind", "change_kind", "signed", "flag", "amounts", "vouts", "fraction", "fee", "version", "locktime", "m", "n")
